@@ -10,6 +10,7 @@ import numpy as np
 from vmon import core, gen, contracts
 from vmon import refmodel as rm
 
+ANCHORS = ['evo/core/trajectory.py']
 LEVEL = "exploration"
 SHARDS = {"quick": 4, "thorough": 16}
 RULE = ("trajectories x planes {xy, xz, yz}: planar poses with every heading on a 1-degree grid "
